@@ -258,11 +258,23 @@ func checkC01(c *Ctx, r *Report) {
 	}
 	// memory R3
 	for _, f := range c.FuncsNamed("(*" + cachePkg + ".MemoryCache).cacheInternal") {
-		var upd *ssa.MapUpdate
+		// the insert, or the call of the helper that makes it (oldEntry, overwritten := c.swapEntry(key, entry))
+		var upd ssa.Instruction
 		eachInstr(f, func(in ssa.Instruction) {
 			if u, ok := in.(*ssa.MapUpdate); ok {
 				if _, tracked := trackedMapField(u.Map); tracked {
 					upd = u
+				}
+			}
+			if x, ok := in.(*ssa.Call); ok && upd == nil {
+				if h := helperBody(x); h != nil {
+					eachInstr(h, func(i2 ssa.Instruction) {
+						if u, ok := i2.(*ssa.MapUpdate); ok {
+							if _, tracked := trackedMapField(u.Map); tracked {
+								upd = x
+							}
+						}
+					})
 				}
 			}
 		})
@@ -643,8 +655,14 @@ func checkC11(c *Ctx, r *Report) {
 					if nn, _ := nilFacts(factStrs(g, st), "ParseIP("); nn {
 						ipArm = true
 					}
+					if nn, _ := sanSplitArms(st.Val); nn {
+						ipArm = true
+					}
 				case "DNSNames":
 					if _, n := nilFacts(factStrs(g, st), "ParseIP("); n {
+						dnsArm = true
+					}
+					if _, n := sanSplitArms(st.Val); n {
 						dnsArm = true
 					}
 				}
@@ -994,4 +1012,40 @@ func isNamedResult(fn *ssa.Function, cell *ssa.Alloc) bool {
 		}
 	}
 	return false
+}
+
+// sanSplitArms: v is a result of a same-package helper that sorts names into IP literals and DNS names
+// (ips, names := splitHostNames(list)): which of the two arms builds this result — appended where net.ParseIP gave an
+// address (ipArm) or where it gave nil (dnsArm).
+func sanSplitArms(v ssa.Value) (ipArm, dnsArm bool) {
+	ex, ok := resolveVal(v).(*ssa.Extract)
+	if !ok {
+		return false, false
+	}
+	call, ok := ex.Tuple.(*ssa.Call)
+	if !ok {
+		return false, false
+	}
+	h := helperBody(call)
+	if h == nil {
+		return false, false
+	}
+	want := h.Signature.Results().At(ex.Index).Type()
+	eachInstr(h, func(in ssa.Instruction) {
+		ap, ok := in.(*ssa.Call)
+		if !ok {
+			return
+		}
+		if b, isB := ap.Call.Value.(*ssa.Builtin); !isB || b.Name() != "append" || !types.Identical(ap.Type(), want) {
+			return
+		}
+		nn, n := nilFacts(factStrs(h, ap), "ParseIP(")
+		if nn {
+			ipArm = true
+		}
+		if n {
+			dnsArm = true
+		}
+	})
+	return
 }
